@@ -249,9 +249,11 @@ def execute(ctx, case: dict) -> None:
                 ace.ungroup_ports()
         elif level == "aceg":
             aceg = AceGroup(case["text"], platform="ios")
+            _twins_and_loose(ctx, case, aceg)
             aceg.ungroup_ports()
         elif level == "acl":
             acl = Acl(case["text"], platform="ios", group_by=case.get("group_by", ""))
+            _twins_and_loose(ctx, case, acl)
             acl.ungroup_ports()
         else:  # platform conversion drives ungroup_ports internally
             acl = Acl(case["text"], platform="ios", group_by=case.get("group_by", ""))
@@ -263,6 +265,32 @@ def execute(ctx, case: dict) -> None:
             pass
         ctx.violation(case, "splitting raised on a valid IOS ACL", f"{type(ex).__name__}: {ex}", known=known)
     _drain(case, ctx)
+
+
+def _twins_and_loose(ctx, case, obj) -> None:
+    """Histories before the split: an entry rebuilt with the uuid of its neighbour and given another text; a multi-port entry
+    put into the container through the list API (for a grouped ACL it stands outside the blocks)."""
+    from cisco_acl import Ace  # pylint: disable=import-outside-toplevel
+
+    if case.get("twin"):
+        flat = [i for i in _flatten(obj.items) if type(i).__name__ == "Ace"]
+        if flat:
+            orig = flat[case["twin"][0] % len(flat)]
+            try:
+                clone = Ace(**orig.data(uuid=True))
+                clone.line = case["twin"][1]
+                holder = obj
+                for blk in obj.items:
+                    if type(blk).__name__ == "AceGroup" and orig in blk.items:
+                        holder = blk
+                pos = holder.items.index(orig)
+                holder.items.insert(pos + 1, clone)
+                ctx.count("entries_sharing_one_uuid")
+            except (ValueError, TypeError):
+                pass
+    for text in case.get("loose", []):
+        obj.append(Ace(text, platform="ios"))
+        ctx.count("entries_added_through_the_list_api")
 
 
 def _multi_ace(rng, allow_neq=True, dups=False) -> tuple:
@@ -350,11 +378,16 @@ def gen_cases(ctx):
         if level == "nxos" and has_neq_multi:
             level = "acl"
         body = "\n".join("  " + ln for ln in lines)
+        extra = {}
+        if level in ("aceg", "acl") and rng.random() < 0.15:
+            extra["twin"] = [rng.randrange(8), _multi_ace(rng, allow_neq=False)[0]]
+        if level == "acl" and rng.random() < 0.2:
+            extra["loose"] = [_multi_ace(rng, allow_neq=False)[0] for _ in range(rng.randint(1, 2))]
         if level == "aceg":
-            yield {"level": "aceg", "text": "\n".join(lines), "sig": tuple(sigs[:2]), "n": n}
+            yield {"level": "aceg", "text": "\n".join(lines), "sig": tuple(sigs[:2]), "n": n, **extra}
         else:
             yield {"level": level, "text": grammar.acl_header("ios", "S1") + "\n" + body, "group_by": heading,
-                   "sig": tuple(sigs[:2]), "n": n}
+                   "sig": tuple(sigs[:2]), "n": n, **extra}
 
 
 def run(ctx) -> None:
